@@ -296,13 +296,22 @@ _EXTRA = {
     'R101': (['C02', 'C03', 'C04', 'C05', 'C11', 'C12', 'C14', 'C15', 'C16'], 'R101: by E3 types, no == / != compares a role with a variable or constant, or a container with a string (a comparison with a fixed outcome means the wrong slot is looked at).'),
     'R96b': (_ALL, 'R96b: a function that returns no value on any exit is not used for its result by any caller.'),
     'R102': (['C20', 'C16'], 'R102: every documented option is defined by an add_argument call with the documented action / type / nargs / default / dest (spec/cli.json).'),
-    'R103': (['C20', 'C05'], 'R103: the key-list type function splits at commas and rejects unknown names under the membership fact; _make_sort_key looks names up on the model, appends found methods, stores True flags for the others, and returns (function, flags).'),
+    'R103': (['C20', 'C05', 'C17'], 'R103: the key-list type function splits at commas and rejects unknown names under the membership fact; _make_sort_key looks names up on the model, appends found methods, stores True flags for the others, and returns (function, flags).'),
     'R104': (_ALL, 'R104: in no loop does a variable that is set from the current element only on some paths reach a use in a later iteration without having been set again (reaching definitions through the loop head plus a definition-free path from the head to the use).'),
     'R105': (['C20', 'C16'], 'R105: _get_model binds each model exactly in its documented case (facts on --amr / --noop / --model), _indent maps the words to None, numbers through int(), rejects exactly values below -1 and defaults to -1, process chooses format_triples / format by the triples flag and formats the result of _process_out, and main feeds every process() status into the exit status (accumulating inside the file loop).'),
     'R106': (['C09', 'C20', 'C17'], 'R106: a stream parameter (or a plain alias of it, by reaching definitions) is never the subject of `with`, `.close()` or a sized `read`/`readline`.'),
     'R107': (['C18'], 'R107: the condition of the "unbalanced quotes" error is, as a propositional formula over startswith(quote) / endswith(quote), exactly their exclusive or (no further atom).'),
+    'R6': (['C01'], 'R6: a text is split into lines at LF, CRLF and CR only (str.splitlines would also cut inside quoted strings and comments at VT, FF, NEL, LS, PS).'),
+    'R13': (['C05'], 'R13: no set iteration order reaches an ordered result (key precedence of --rearrange must be the written order).'),
+    'R24': (['C10'], 'R24: in the tool the variables are renamed after the tree was rearranged (pipeline order).'),
+    'R25': (['C11'], 'R25: --reify-edges and --dereify-edges each guard exactly their own step (both may be given).'),
+    'R5': (['C14', 'C20'], 'R5: interpretation turns an inverted triple round through Model.deinvert only (the no-op model overrides exactly that method).'),
+    'R11': (['C14'], 'R11: a variable reference is compared with the variable set after its alignment suffix was split off.'),
+    'R32': (['C14'], 'R32: a value that is cast to Variable was tested to be one.'),
+    'R90': (['C14'], 'R90: branch targets are taken apart only under the is_atomic test.'),
+    'R73': (['C19'], 'R73: optional context (a flag, a token) that a function holds under the same name as its callee\'s parameter is passed on.'),
     'R87': (['C20', 'C17'], 'R87: the option tables main() builds once are only read by process/_process_in/_process_out (alias-following over what is unpacked from them).'),
-    'R86': (['C01', 'C07', 'C09', 'C20'], 'R86: an argument annotated as Iterable / Iterator / file is walked at most once on every path (a second walk of a file or generator finds nothing).'),
+    'R86': (['C01', 'C07', 'C08', 'C09', 'C19', 'C20'], 'R86: an argument annotated as Iterable / Iterator / file is walked at most once on every path (a second walk of a file or generator finds nothing).'),
 }
 for _r, (_props, _text) in _EXTRA.items():
     for _pid in _props:
